@@ -5,8 +5,10 @@ package fit
 import (
 	"bytes"
 	"encoding/binary"
+	"reflect"
 
 	"github.com/tormoder/fit/dyncrc16"
+	"github.com/tormoder/fit/internal/types"
 )
 
 // C08 — decoding and encoding are pure; C09 — concurrent use on independent
@@ -217,5 +219,84 @@ func H09acc() {
 	vKnownNext("KF-C09-accumulators-race", true)
 	vAssert(vSharedWrites() == 0, "C09.race-free")
 	vTrackShared(false)
+	vReached("end")
+}
+
+// vAllFieldsFile is a File of type index ti hosting one message gmn with
+// every field set (fixed values; strings of slen arbitrary ASCII characters, arrays of
+// strings left unset since Encode refuses them). nil when ti does not host gmn.
+func vAllFieldsFile(ti int, gmn MesgNum, slen int) *File {
+	f, err := NewFile(FileType(vFileTypes[ti]), NewHeader(V20, true))
+	vAssert(err == nil, "C08.harness.newfile")
+	msgv := getMesgAllInvalid(gmn)
+	for i := 0; i < msgv.NumField(); i++ {
+		pf := getFieldBySindex(i, profileFieldDef(gmn))
+		if pf.t.BaseType() == types.BaseString {
+			if !pf.t.Array() && int(pf.length) > slen {
+				bs := make([]byte, slen)
+				for k := range bs {
+					bs[k] = vByte()
+					vAssume(bs[k] >= 0x20 && bs[k] < 0x7F)
+				}
+				msgv.Field(i).SetString(string(bs))
+			}
+			continue
+		}
+		vSetField(msgv, gmn, i, false)
+	}
+	if vPlace(f, ti, msgv, gmn, reflect.Value{}) == 0 {
+		return nil
+	}
+	return f
+}
+
+// H08e: Encode on hand-built Files (every field of one message set,
+// including its strings): no object that pre-exists the call is written, and
+// the bytes written for a File do not depend on which other Files (same
+// message, shorter and longer strings) were encoded before.
+func H08e() {
+	ti, gmn, big := vParam("ti"), MesgNum(vParam("gmn")), vParam("big") == 1
+	fy, fx, fz := vAllFieldsFile(ti, gmn, 2), vAllFieldsFile(ti, gmn, vConcretize(vInt(0, 3))), vAllFieldsFile(ti, gmn, vConcretize(vInt(0, 5)))
+	if fy == nil || fx == nil || fz == nil {
+		vReached("not-hosted")
+		vReached("end")
+		return
+	}
+	var order binary.ByteOrder = binary.LittleEndian
+	if big {
+		order = binary.BigEndian
+	}
+	vTrackShared(true)
+	var y0, x, z, y1 bytes.Buffer
+	e0 := Encode(&y0, fy, order)
+	vAssert(vSharedWrites() == 0, "C08.frame.encode-writes-no-shared-object")
+	_ = Encode(&x, fx, order)
+	_ = Encode(&z, fz, order)
+	e1 := Encode(&y1, fy, order)
+	vAssert(vSharedWrites() == 0, "C08.frame.encode-writes-no-shared-object")
+	vTrackShared(false)
+	vAssert(e0 == nil && e1 == nil, "C08.encode.succeeds")
+	vAssert(bytes.Equal(y0.Bytes(), y1.Bytes()), "C08.sequence.encode-independent-of-earlier-encodes")
+	vReached("end")
+}
+
+// H09e: two concurrent Encodes of independent hand-built Files hosting the
+// same message.
+func H09e() {
+	ti, gmn := vParam("ti"), MesgNum(vParam("gmn"))
+	f1, f2 := vAllFieldsFile(ti, gmn, 2), vAllFieldsFile(ti, gmn, 1)
+	if f1 == nil || f2 == nil {
+		vReached("not-hosted")
+		vReached("end")
+		return
+	}
+	vTrackShared(true)
+	var w1, w2 bytes.Buffer
+	vPar(func() { _ = Encode(&w1, f1, binary.LittleEndian) }, func() { _ = Encode(&w2, f2, binary.BigEndian) })
+	vAssert(vSharedWrites() == 0, "C09.no-shared-object-is-written")
+	vTrackShared(false)
+	var a1 bytes.Buffer
+	_ = Encode(&a1, f1, binary.LittleEndian)
+	vAssert(bytes.Equal(a1.Bytes(), w1.Bytes()), "C09.same-result-as-alone")
 	vReached("end")
 }
